@@ -346,4 +346,267 @@ theorem step_sound (n : Nat) {a : AState} {c : CState} (h : Inv a c) (pos : Nat)
     simp only [step, cstep]
     exact ⟨retReports_sub h _ _, Or.inl (inv_clear h)⟩
 
+theorem retOnlyLast_cons {op : Op} {rest : List Op} (h : retOnlyLast (op :: rest) = true) :
+    (rest = [] ∨ op.isRet = false) ∧ retOnlyLast rest = true := by
+  cases rest with
+  | nil => exact ⟨Or.inl rfl, rfl⟩
+  | cons o r =>
+    simp only [retOnlyLast, Bool.and_eq_true, Bool.not_eq_true'] at h
+    exact ⟨Or.inr h.1, h.2⟩
+
+theorem scan_clear_nil (n pos : Nat) : scan n clearA pos [] = [] := by
+  simp only [scan]
+  apply List.eq_nil_iff_forall_not_mem.mpr
+  intro r hr
+  obtain ⟨v, _, h⟩ := mem_retReports.mp hr
+  rcases h with ⟨_, h, _⟩ | ⟨_, h, _⟩ <;> simp [clearA] at h
+
+/-- soundness of the scan against the concrete execution, for any related start states -/
+theorem scan_sound (n : Nat) : ∀ (ops : List Op) (a : AState) (c : CState) (pos : Nat),
+    Inv a c → retOnlyLast ops = true →
+    ∀ r ∈ scan n a pos ops, r ∈ oscan n c pos ops ∨ ∃ u ∈ oscan n c pos ops, u.kind = .uninit ∧ u.pos < r.pos := by
+  intro ops
+  induction ops with
+  | nil =>
+    intro a c pos h _ r hr
+    simp only [scan] at hr
+    simp only [oscan]
+    exact Or.inl (retReports_sub h none pos r hr)
+  | cons op rest ih =>
+    intro a c pos h hl r hr
+    obtain ⟨hlast, hrest⟩ := retOnlyLast_cons hl
+    obtain ⟨hsub, hinv⟩ := step_sound n h pos op
+    simp only [scan, List.mem_append] at hr
+    simp only [oscan, cstep_stop]
+    rcases hr with hr | hr
+    · -- a report of this statement
+      left
+      by_cases hret : op.isRet = true
+      · simp only [hret, if_true]; exact hsub r hr
+      · simp only [hret]; exact List.mem_append_left _ (hsub r hr)
+    · -- a report of a later statement
+      by_cases hret : op.isRet = true
+      · rcases hlast with hnil | hnr
+        · subst hnil
+          have hclear : (step n a pos op).1 = clearA := by
+            cases op <;> simp [Op.isRet] at hret <;> rfl
+          rw [hclear, scan_clear_nil] at hr
+          simp at hr
+        · rw [hnr] at hret; simp at hret
+      · simp only [hret]
+        rcases hinv with hinv | ⟨u, hu, hk, hp⟩
+        · rcases ih _ _ (pos + 1) hinv hrest r hr with h1 | ⟨u, hu, hk, hp⟩
+          · exact Or.inl (List.mem_append_right _ h1)
+          · exact Or.inr ⟨u, List.mem_append_right _ hu, hk, hp⟩
+        · have hge := scan_pos_ge n rest _ (pos + 1) r hr
+          exact Or.inr ⟨u, List.mem_append_left _ hu, hk, by omega⟩
+
+/-! ### exactness (no pointer copies, no uninitialised reads) -/
+
+/-- the automaton status that corresponds to the concrete value of `x` -/
+def absSt (c : CState) (x : Nat) : St :=
+  match c.env x with
+  | none => .none
+  | some b => if c.freed b then .dealloc else .alloc
+
+structure Exact (a : AState) (c : CState) : Prop where
+  abs : ∀ x, a x = absSt c x
+  noAlias : ∀ x y b, x ≠ y → c.env x = some b → c.env y ≠ some b
+  bound : ∀ y b, c.env y = some b → b < c.next
+  freedBound : ∀ b, c.freed b = true → b < c.next
+
+theorem filterMap_congr' {α β : Type} {f g : α → Option β} : ∀ {l : List α}, (∀ x ∈ l, f x = g x) →
+    l.filterMap f = l.filterMap g
+  | [], _ => rfl
+  | x :: r, h => by
+    have hx := h x List.mem_cons_self
+    have hr := filterMap_congr' (l := r) (fun y hy => h y (List.mem_cons_of_mem _ hy))
+    simp only [List.filterMap_cons, hx, hr]
+
+theorem exact_init : Exact clearA init := by
+  constructor <;> intros <;> simp_all [clearA, init, absSt]
+
+theorem retReports_eq {n : Nat} {a : AState} {c : CState} (h : Exact a c) (rx : Option Nat) (pos : Nat)
+    (hu : ∀ u ∈ retEvents n c rx pos, u.kind ≠ .uninit) : retReports n a rx pos = retEvents n c rx pos := by
+  unfold retReports retEvents
+  apply filterMap_congr'
+  intro v hv
+  have hvn : v < n := List.mem_range.mp hv
+  have ha := h.abs v
+  unfold absSt at ha
+  by_cases h1 : rx = some v
+  · simp only [h1, if_true]
+    cases he : c.env v with
+    | none =>
+      exfalso
+      exact hu ⟨.uninit, v, pos⟩ (mem_retEvents.mpr ⟨v, hvn, Or.inl ⟨h1, Or.inr ⟨he, rfl⟩⟩⟩) rfl
+    | some b =>
+      simp only [he] at ha
+      by_cases hf : c.freed b = true
+      · simp [hf] at ha; simp [ha, hf]
+      · simp [hf] at ha; simp [ha, hf]
+  · simp only [h1, if_false]
+    cases he : c.env v with
+    | none => simp only [he] at ha; simp [ha]
+    | some b =>
+      simp only [he] at ha
+      by_cases hf : c.freed b = true
+      · simp [hf] at ha; simp [ha, hf, CState.live]
+      · simp [hf] at ha
+        have hl : c.live b = true := by
+          simp only [CState.live]; simp [hf]; exact h.bound v b he
+        have hne : (rx.bind c.env != some b) = true := by
+          cases rx with
+          | none => simp
+          | some x =>
+            have hxv : x ≠ v := fun e => h1 (by rw [e])
+            simpa using h.noAlias v x b (fun e => hxv e.symm) he
+        simp [ha, hl, hne]
+
+theorem lost_eq {n : Nat} {a : AState} {c : CState} (h : Exact a c) (x pos : Nat) :
+    (if a x = .alloc then [(⟨.memleak, x, pos⟩ : Rep)] else []) = lostOnOverwrite n c x pos := by
+  have ha := h.abs x
+  unfold absSt at ha
+  unfold lostOnOverwrite
+  cases he : c.env x with
+  | none => simp only [he] at ha; simp [ha]
+  | some b =>
+    simp only [he] at ha
+    by_cases hf : c.freed b = true
+    · simp [hf] at ha; simp [ha, hf, CState.live]
+    · simp [hf] at ha
+      have hl : c.live b = true := by
+        simp only [CState.live]; simp [hf]; exact h.bound x b he
+      have ho : otherHolder n c x b = false := not_otherHolder (fun y hy => h.noAlias x y b (fun e => hy e.symm) he)
+      simp [ha, hl, ho]
+
+/-- one statement that is neither a pointer copy nor reads an uninitialised pointer: same reports, and (unless it returns)
+    the exact relation is kept -/
+theorem step_exact (n : Nat) {a : AState} {c : CState} (h : Exact a c) (pos : Nat) (op : Op)
+    (hna : op.isAssign = false) (hu : ∀ u ∈ (cstep n c pos op).2.1, u.kind ≠ .uninit) :
+    (step n a pos op).2 = (cstep n c pos op).2.1 ∧
+    (op.isRet = false → Exact (step n a pos op).1 (cstep n c pos op).1) := by
+  cases op with
+  | alloc x =>
+    simp only [step, cstep]
+    refine ⟨lost_eq h x pos, fun _ => ?_⟩
+    have hfn : c.freed c.next = false := by
+      cases hf : c.freed c.next with
+      | false => rfl
+      | true => exact absurd (h.freedBound _ hf) (Nat.lt_irrefl _)
+    constructor
+    · intro z
+      unfold absSt
+      by_cases hzx : z = x
+      · subst hzx; simp [setA_same, setE_same, hfn]
+      · simp only [setA_other _ _ hzx, setE_other _ _ hzx]; exact h.abs z
+    · intro z y b hzy hz
+      by_cases hzx : z = x
+      · subst hzx
+        simp only [setE_same] at hz
+        injection hz with hz; subst hz
+        simp only [setE_other _ _ (fun e => hzy e.symm)]
+        intro hy; exact absurd (h.bound y _ hy) (Nat.lt_irrefl _)
+      · simp only [setE_other _ _ hzx] at hz
+        by_cases hyx : y = x
+        · subst hyx
+          simp only [setE_same]
+          intro heq; injection heq with heq
+          have := h.bound z b hz
+          omega
+        · simp only [setE_other _ _ hyx]; exact h.noAlias z y b hzy hz
+    · intro y b hy
+      by_cases hyx : y = x
+      · subst hyx; simp [setE_same] at hy; subst hy; exact Nat.lt_succ_self _
+      · simp only [setE_other _ _ hyx] at hy; exact Nat.lt_succ_of_lt (h.bound y b hy)
+    · intro b hb; exact Nat.lt_succ_of_lt (h.freedBound b hb)
+  | free x =>
+    simp only [step, cstep] at hu ⊢
+    have ha := h.abs x
+    unfold absSt at ha
+    cases he : c.env x with
+    | none => simp only [he] at hu; exact absurd rfl (hu ⟨.uninit, x, pos⟩ (by simp))
+    | some b =>
+      simp only [he] at ha
+      by_cases hf : c.freed b = true
+      · simp [hf] at ha
+        simp only [ha, if_true, hf]
+        exact ⟨trivial, fun _ => h⟩
+      · simp [hf] at ha
+        simp only [ha, hf]
+        refine ⟨by simp, fun _ => ?_⟩
+        simp
+        constructor
+        · intro z
+          unfold absSt
+          by_cases hzx : z = x
+          · subst hzx; simp [setA_same, he]
+          · simp only [setA_other _ _ hzx]
+            have hz := h.abs z
+            unfold absSt at hz
+            cases hez : c.env z with
+            | none => simp only [hez] at hz; simp [hz]
+            | some b' =>
+              simp only [hez] at hz
+              have hne : b' ≠ b := fun e => h.noAlias z x b' hzx hez (e ▸ he)
+              simp [hz, hne]
+        · exact h.noAlias
+        · exact h.bound
+        · intro b' hb'
+          simp at hb'
+          rcases hb' with hb' | hb'
+          · subst hb'; exact h.bound x _ he
+          · exact h.freedBound b' hb'
+  | use x =>
+    simp only [step, cstep] at hu ⊢
+    have ha := h.abs x
+    unfold absSt at ha
+    cases he : c.env x with
+    | none => simp only [he] at hu; exact absurd rfl (hu ⟨.uninit, x, pos⟩ (by simp))
+    | some b =>
+      simp only [he] at ha
+      refine ⟨?_, fun _ => h⟩
+      by_cases hf : c.freed b = true
+      · simp [hf] at ha; simp [ha, hf]
+      · simp [hf] at ha; simp [ha, hf]
+  | assign x y => simp [Op.isAssign] at hna
+  | ret x =>
+    simp only [step, cstep] at hu ⊢
+    exact ⟨retReports_eq h _ _ hu, fun hr => by simp [Op.isRet] at hr⟩
+  | ret0 =>
+    simp only [step, cstep] at hu ⊢
+    exact ⟨retReports_eq h _ _ hu, fun hr => by simp [Op.isRet] at hr⟩
+
+theorem scan_exact (n : Nat) : ∀ (ops : List Op) (a : AState) (c : CState) (pos : Nat),
+    Exact a c → retOnlyLast ops = true → noAssign ops = true →
+    (∀ u ∈ oscan n c pos ops, u.kind ≠ .uninit) → scan n a pos ops = oscan n c pos ops := by
+  intro ops
+  induction ops with
+  | nil =>
+    intro a c pos h _ _ hu
+    simp only [scan, oscan] at hu ⊢
+    exact retReports_eq h none pos hu
+  | cons op rest ih =>
+    intro a c pos h hl hna hu
+    obtain ⟨hlast, hrest⟩ := retOnlyLast_cons hl
+    simp only [noAssign, List.all_cons, Bool.and_eq_true, Bool.not_eq_true'] at hna
+    simp only [oscan, cstep_stop] at hu
+    simp only [scan, oscan, cstep_stop]
+    by_cases hret : op.isRet = true
+    · simp only [hret, if_true] at hu ⊢
+      obtain ⟨hrep, _⟩ := step_exact n h pos op hna.1 hu
+      rcases hlast with hnil | hnr
+      · subst hnil
+        have hclear : (step n a pos op).1 = clearA := by
+          cases op <;> simp [Op.isRet] at hret <;> rfl
+        rw [hclear, scan_clear_nil, hrep]; simp
+      · rw [hnr] at hret; simp at hret
+    · simp only [hret] at hu ⊢
+      have hu1 : ∀ u ∈ (cstep n c pos op).2.1, u.kind ≠ .uninit := fun u hm => hu u (List.mem_append_left _ hm)
+      obtain ⟨hrep, hex⟩ := step_exact n h pos op hna.1 hu1
+      rw [hrep]
+      congr 1
+      exact ih _ _ (pos + 1) (hex (by simpa using hret)) hrest (by simpa [noAssign] using hna.2)
+        (fun u hm => hu u (List.mem_append_right _ hm))
+
 end Cppcheck.LeakStraight
